@@ -133,7 +133,11 @@ def e2e_job(j):
         files = [f for f in files if f not in dirset]
         hidden = [".hid", "a/.hidden", ".hdir/inside"]
         for i, f in enumerate(files + hidden):
-            L.write("d1", f, L.gen(f, 10 + i % 5))
+            if i % 3 == 1:
+                # every third entry is a symbolic link: the rules judge it like a file, by its path from the disk root
+                L.symlink("d1", f, "/nonexistent/target-%d" % i)
+            else:
+                L.write("d1", f, L.gen(f, 10 + i % 5))
         L.write("d2", "anchor", L.gen("anchor", 100))
         L.mkdir("d1", "d/emptyd")
         L.mkdir("d1", ".hemptyd")
@@ -143,7 +147,7 @@ def e2e_job(j):
         if r.rc != 0:
             return dict(viols=[dict(kind="sync-failed", rules=rl, out=r.text()[-300:])], n=0)
         c = L.content()
-        recorded = {f.sub.decode() for f in c.disks[b"d1"].files}
+        recorded = {f.sub.decode() for f in c.disks[b"d1"].files} | {sub.decode() for k_, sub, to_ in c.disks[b"d1"].links}
         rec_dirs = {d.decode() for d in c.disks[b"d1"].dirs}
         rr = [(d, R.parse(p)) for d, p in rl]
         own = {".content", ".content.lock", ".content.tmp", "sub/content.copy", "sub/content.copy.tmp", "sub/content.copy.lock"}
